@@ -2448,7 +2448,7 @@ fn find_killer(args: &[String], level: &str, suspects: &[(Transport, Vec<u8>)], 
 }
 
 pub fn run(ctx: &Ctx) -> i32 {
-    let budget = ctx.tier.pick(38.0, 520.0);
+    let budget = ctx.tier.pick(90.0, 900.0);
     let mut rig = match build_rig(&[Mode::Auth, Mode::Rec, Mode::AuthTrace, Mode::RecTrace]) {
         Ok(r) => r,
         Err(e) => {
